@@ -31,6 +31,11 @@
 //!   part merkle <leaves> <t>                              which tree nodes each spawned task of concurrent::build_merkle_nodes
 //!                                                         writes and in which order the tip is finished (observed through a
 //!                                                         hasher that records its calls)
+//!   miri permute|merkle                                   (thorough tier, model validation) run the two raw-pointer routines
+//!                                                         (concurrent fft permute through get_twiddles(2048); concurrent::build_merkle_nodes
+//!                                                         on 64 leaves) under `cargo +nightly miri` (tree borrows, 3 rayon threads): output
+//!                                                         `clean`, `ub:<kind>` or `unavailable`; a reported data race / aliasing violation is
+//!                                                         the language-level side of the named gap "runtime scheduling" (site c14.miri.<kind>)
 //! `part` lines are answered by the Lean model too (Winter/Model/Parallel.lean through drv_c14): the output of
 //! the line is what the concurrent build was OBSERVED to do, the model prints what the theorems are about.
 //!
@@ -690,6 +695,74 @@ fn part_op(t: &[&str]) -> Option<(String, Vec<String>)> {
     }
 }
 
+
+// ------------------------------------------------------------------------------------ Miri (model validation)
+const MIRI_MAIN: &str = r#"
+use winter_crypto::{hashers::Blake3_256, Hasher};
+use winter_math::{fft, fields::f64::BaseElement};
+
+fn main() {
+    let which = std::env::args().nth(1).unwrap_or_default();
+    if which == "permute" {
+        // power series of 1024 elements + the concurrent permute (tasks share the slice through aliased `&mut`)
+        let tw = fft::get_twiddles::<BaseElement>(2048);
+        println!("twiddles {} {}", tw.len(), tw[1]);
+    } else {
+        let leaves: Vec<_> = (0..64u64).map(|i| Blake3_256::<BaseElement>::hash(&i.to_le_bytes())).collect();
+        let nodes = winter_crypto::concurrent::build_merkle_nodes::<Blake3_256<BaseElement>>(&leaves);
+        let serial = winter_crypto::build_merkle_nodes::<Blake3_256<BaseElement>>(&leaves);
+        println!("merkle {} {}", nodes.len(), nodes[1..] == serial[1..]);
+    }
+}
+"#;
+
+/// run one of the raw-pointer routines under Miri in a scratch crate (path dependencies as in the harness's own
+/// Cargo.toml); returns (canonical output, detail)
+fn miri_op(which: &str) -> (String, String) {
+    let manifest = std::fs::read_to_string("Cargo.toml").unwrap_or_default();
+    let path_of = |krate: &str| -> Option<String> {
+        let l = manifest.lines().find(|l| l.starts_with(krate))?;
+        let i = l.find("path = \"")? + 8;
+        let j = l[i..].find('"')? + i;
+        Some(l[i..j].to_string())
+    };
+    let (Some(math), Some(crypto)) = (path_of("winter-math"), path_of("winter-crypto")) else {
+        return ("unavailable".into(), "cannot read the repository paths from harness/Cargo.toml".into());
+    };
+    let dir = std::env::temp_dir().join("c14-miri");
+    let _ = std::fs::create_dir_all(dir.join("src"));
+    let toml = format!(
+        "[package]\nname = \"c14-miri\"\nversion = \"0.1.0\"\nedition = \"2021\"\n\n[workspace]\n\n[dependencies]\nwinter-math = {{ path = \"{}\", package = \"winter-math\", features = [\"concurrent\"] }}\nwinter-crypto = {{ path = \"{}\", package = \"winter-crypto\", features = [\"concurrent\"] }}\n",
+        math, crypto
+    );
+    if std::fs::write(dir.join("Cargo.toml"), toml).is_err() || std::fs::write(dir.join("src/main.rs"), MIRI_MAIN).is_err() {
+        return ("unavailable".into(), "cannot write the scratch crate".into());
+    }
+    let _ = std::fs::copy("Cargo.lock", dir.join("Cargo.lock"));
+    let out = Command::new("cargo")
+        .args(["+nightly", "miri", "run", "--offline", "--", which])
+        .current_dir(&dir)
+        .env("RAYON_NUM_THREADS", "3")
+        .env("MIRIFLAGS", "-Zmiri-disable-isolation -Zmiri-tree-borrows -Zmiri-permissive-provenance")
+        .env_remove("RUSTFLAGS")
+        .stdin(Stdio::null())
+        .output();
+    let Ok(out) = out else { return ("unavailable".into(), "cargo +nightly miri could not be started".into()) };
+    let text = format!("{}{}", String::from_utf8_lossy(&out.stdout), String::from_utf8_lossy(&out.stderr));
+    if let Some(l) = text.lines().find(|l| l.contains("Undefined Behavior")) {
+        let kind = if l.contains("Data race") { "data-race" } else if l.contains("borrow") || l.contains("retag") { "aliasing" } else { "other" };
+        let at = text.lines().filter(|l| l.contains("/repo/") || l.contains("/src/")).find(|l| l.contains("concurrent.rs")).unwrap_or("").trim().to_string();
+        return (format!("ub:{}", kind), format!("{} {}", l.trim(), at));
+    }
+    if out.status.success() && (text.contains("twiddles 1024") || text.contains("merkle 64 true")) {
+        return ("clean".into(), String::new());
+    }
+    if text.contains("merkle 64 false") {
+        return ("wrong-result".into(), "the concurrent node builder differs from the serial one under Miri".into());
+    }
+    ("unavailable".into(), text.lines().rev().find(|l| !l.trim().is_empty()).unwrap_or("").chars().take(200).collect())
+}
+
 // ------------------------------------------------------------------------------------ compute
 fn area(t: &[&str]) -> &'static str {
     match t.first().copied().unwrap_or("") {
@@ -868,6 +941,21 @@ fn exec_line(line: &str) -> Outcome {
         threads = op.last().and_then(|x| x.parse::<usize>().ok()).filter(|k| *k >= 1 && *k <= 4096).into_iter().collect();
     }
     let mut o = Outcome::default();
+    if op.first() == Some(&"miri") {
+        let which = match op.get(1).copied() {
+            Some("permute") => "permute",
+            Some("merkle") => "merkle",
+            _ => return Outcome::ok("bad-op"),
+        };
+        let (out, detail) = miri_op(which);
+        let mut o = Outcome::ok(out.clone());
+        if let Some(kind) = out.strip_prefix("ub:") {
+            o = o.fail(format!("c14.miri.{}", kind), format!("{}: {}", which, detail));
+        } else if out == "wrong-result" {
+            o = o.fail("c14.merkle.mismatch", detail);
+        }
+        return o;
+    }
     // 1. reference: this (serial) build
     let reference = guarded(|| compute(&op));
     let reference: Result<Vec<(String, String)>, String> = match reference {
@@ -1148,7 +1236,7 @@ impl Prop for P {
         let all: Vec<usize> = vec![1, 2, 3, 5, 8, 16, 33, 64];
         let base: Vec<usize> = if quick { vec![1, 3, 8] } else { all.clone() };
         let wide: Vec<usize> = if quick { vec![2, 5, 16, 33, 64] } else { all.clone() };
-        let reps = if quick { 2 } else { 3 };
+        let reps = if quick { 2 } else { 4 };
         let sched = |i: usize| -> String {
             // most lines run on the tier's base set; every fourth one on the other sizes as well
             let ts = if i % 4 == 3 { &wide } else { &base };
@@ -1194,147 +1282,156 @@ impl Prop for P {
             }
         }
 
-        // ---- transforms on both sides of 1024
-        let fft_sizes: Vec<usize> = if quick { vec![256, 512, 1024, 2048, 4096] } else { vec![8, 256, 512, 1024, 2048, 4096, 8192, 16384] };
-        for f in FLDS {
-            for e in exts_of(f) {
-                for &nn in &fft_sizes {
-                    if quick && e != "1" && nn > 2048 {
-                        continue;
-                    }
-                    line(format!("fft {} {} eval {} {}", f, e, nn, rng.u64() % 1000), emit);
-                    line(format!("fft {} {} interp {} {}", f, e, nn, rng.u64() % 1000), emit);
-                    line(format!("fft {} {} interpo {} {}", f, e, nn, rng.u64() % 1000), emit);
-                    let b = *rng.pick(&[2usize, 4, 8]);
-                    line(format!("fft {} {} evalo {} {} {}", f, e, nn, b, rng.u64() % 1000), emit);
-                }
-            }
-            for &nn in &fft_sizes {
-                line(format!("tw {} {}", f, nn), emit);
-                line(format!("tw {} {}", f, 2 * nn), emit);
-            }
+        // ---- Miri on the two raw-pointer routines (model validation; thorough tier only: it compiles a scratch crate)
+        if !quick {
+            emit("miri permute".to_string());
+            emit("miri merkle".to_string());
         }
-        // ---- series, inversion, vectors: ragged lengths around the thresholds
-        let vlens: Vec<usize> = vec![0, 1, 5, 1023, 1024, 1025, 2047, 2048, 2049, 3000, 4096, 8191, 8192, 10000, 16385, 65536 + 17];
-        for f in FLDS {
-            for e in exts_of(f) {
-                for &nn in &vlens {
-                    if quick && e != "1" && rng.chance(2, 3) {
-                        continue;
-                    }
-                    line(format!("series {} {} {} {}", f, e, nn, rng.u64() % 1000), emit);
-                    line(format!("inv {} {} {} {} {}", f, e, nn, rng.u64() % 1000, rng.below(5)), emit);
-                    if rng.chance(1, 3) {
-                        line(format!("vec {} {} {} {}", f, e, nn, rng.u64() % 1000), emit);
-                    }
-                }
-            }
-        }
-        // ---- Merkle trees, leaves on both sides of 1024, every hasher
-        let leaf_counts: Vec<usize> = if quick { vec![2, 8, 512, 1024, 2048, 4096] } else { vec![2, 4, 8, 64, 512, 1024, 2048, 4096, 8192, 16384] };
-        for (f, h) in [
-            ("f62", "blake3_256"),
-            ("f62", "rp62_248"),
-            ("f64", "blake3_256"),
-            ("f64", "blake3_192"),
-            ("f64", "sha3_256"),
-            ("f64", "rp64_256"),
-            ("f64", "rpjive64_256"),
-            ("f128", "blake3_256"),
-            ("f128", "blake3_192"),
-            ("f128", "sha3_256"),
-        ] {
-            for &lc in &leaf_counts {
-                if quick && h.starts_with("rp") && lc > 2048 {
-                    continue;
-                }
-                line(format!("merkle {} {} {} {}", f, h, lc, rng.u64() % 1000), emit);
-            }
-        }
-        // ---- low-degree extension of matrices: narrow and wide, short and long
-        for f in FLDS {
-            for e in exts_of(f) {
-                let shapes: Vec<(usize, usize, usize)> = vec![
-                    (1, 8, 2),
-                    (3, 8, 8),
-                    (9, 16, 4),
-                    (17, 64, 16),
-                    (130, 8, 8),
-                    (255, 8, 4),
-                    (255, 8, 2),
-                    (40, 16, 8),
-                    (2, 512, 2),
-                    (7, 256, 4),
-                    (9, 1024, 2),
-                    (3, 2048, 4),
-                ];
-                for (c, nn, b) in shapes {
-                    if quick && e != "1" && c * nn > 3000 {
-                        continue;
-                    }
-                    if e != "1" && c > 100 {
-                        continue;
-                    }
-                    line(format!("lde {} {} {} {} {} {}", f, e, c, nn, b, rng.u64() % 1000), emit);
-                }
-            }
-        }
-        // ---- FRI: folding, layer commitments, proofs
-        for f in FLDS {
-            for e in exts_of(f) {
-                for nn in [2usize, 4, 8, 16] {
-                    for &len in &[1024usize, 4096, 32768] {
-                        if quick && (len > 4096 || rng.chance(1, 2)) {
+
+        // the sections below are generated once in the quick tier, three times (fresh seeds and choices) in the thorough one
+        for _pass in 0..(if quick { 1 } else { 3 }) {
+            // ---- transforms on both sides of 1024
+            let fft_sizes: Vec<usize> = if quick { vec![256, 512, 1024, 2048, 4096] } else { vec![8, 256, 512, 1024, 2048, 4096, 8192, 16384] };
+            for f in FLDS {
+                for e in exts_of(f) {
+                    for &nn in &fft_sizes {
+                        if quick && e != "1" && nn > 2048 {
                             continue;
                         }
-                        line(format!("fold {} {} {} {} {}", f, e, nn, len, rng.u64() % 1000), emit);
+                        line(format!("fft {} {} eval {} {}", f, e, nn, rng.u64() % 1000), emit);
+                        line(format!("fft {} {} interp {} {}", f, e, nn, rng.u64() % 1000), emit);
+                        line(format!("fft {} {} interpo {} {}", f, e, nn, rng.u64() % 1000), emit);
+                        let b = *rng.pick(&[2usize, 4, 8]);
+                        line(format!("fft {} {} evalo {} {} {}", f, e, nn, b, rng.u64() % 1000), emit);
+                    }
+                }
+                for &nn in &fft_sizes {
+                    line(format!("tw {} {}", f, nn), emit);
+                    line(format!("tw {} {}", f, 2 * nn), emit);
+                }
+            }
+            // ---- series, inversion, vectors: ragged lengths around the thresholds
+            let vlens: Vec<usize> = vec![0, 1, 5, 1023, 1024, 1025, 2047, 2048, 2049, 3000, 4096, 8191, 8192, 10000, 16385, 65536 + 17];
+            for f in FLDS {
+                for e in exts_of(f) {
+                    for &nn in &vlens {
+                        if quick && e != "1" && rng.chance(2, 3) {
+                            continue;
+                        }
+                        line(format!("series {} {} {} {}", f, e, nn, rng.u64() % 1000), emit);
+                        line(format!("inv {} {} {} {} {}", f, e, nn, rng.u64() % 1000, rng.below(5)), emit);
+                        if rng.chance(1, 3) {
+                            line(format!("vec {} {} {} {}", f, e, nn, rng.u64() % 1000), emit);
+                        }
                     }
                 }
             }
-        }
-        for (f, e, h) in [
-            ("f62", "1", "blake3_256"),
-            ("f62", "2", "blake3_256"),
-            ("f62", "1", "rp62_248"),
-            ("f64", "1", "blake3_256"),
-            ("f64", "2", "blake3_192"),
-            ("f64", "3", "sha3_256"),
-            ("f64", "1", "rp64_256"),
-            ("f64", "2", "rpjive64_256"),
-            ("f128", "1", "blake3_256"),
-            ("f128", "2", "sha3_256"),
-            ("f128", "3", "blake3_192"),
-        ] {
-            if f == "f62" && e == "2" && !QuadExtension::<f62::BaseElement>::is_supported() {
-                continue;
+            // ---- Merkle trees, leaves on both sides of 1024, every hasher
+            let leaf_counts: Vec<usize> = if quick { vec![2, 8, 512, 1024, 2048, 4096] } else { vec![2, 4, 8, 64, 512, 1024, 2048, 4096, 8192, 16384] };
+            for (f, h) in [
+                ("f62", "blake3_256"),
+                ("f62", "rp62_248"),
+                ("f64", "blake3_256"),
+                ("f64", "blake3_192"),
+                ("f64", "sha3_256"),
+                ("f64", "rp64_256"),
+                ("f64", "rpjive64_256"),
+                ("f128", "blake3_256"),
+                ("f128", "blake3_192"),
+                ("f128", "sha3_256"),
+            ] {
+                for &lc in &leaf_counts {
+                    if quick && h.starts_with("rp") && lc > 2048 {
+                        continue;
+                    }
+                    line(format!("merkle {} {} {} {}", f, h, lc, rng.u64() % 1000), emit);
+                }
             }
-            if f == "f128" && e == "3" && !CubeExtension::<f128::BaseElement>::is_supported() {
-                continue;
+            // ---- low-degree extension of matrices: narrow and wide, short and long
+            for f in FLDS {
+                for e in exts_of(f) {
+                    let shapes: Vec<(usize, usize, usize)> = vec![
+                        (1, 8, 2),
+                        (3, 8, 8),
+                        (9, 16, 4),
+                        (17, 64, 16),
+                        (130, 8, 8),
+                        (255, 8, 4),
+                        (255, 8, 2),
+                        (40, 16, 8),
+                        (2, 512, 2),
+                        (7, 256, 4),
+                        (9, 1024, 2),
+                        (3, 2048, 4),
+                    ];
+                    for (c, nn, b) in shapes {
+                        if quick && e != "1" && c * nn > 3000 {
+                            continue;
+                        }
+                        if e != "1" && c > 100 {
+                            continue;
+                        }
+                        line(format!("lde {} {} {} {} {} {}", f, e, c, nn, b, rng.u64() % 1000), emit);
+                    }
+                }
             }
-            if f == "f128" && e == "2" && !QuadExtension::<f128::BaseElement>::is_supported() {
-                continue;
+            // ---- FRI: folding, layer commitments, proofs
+            for f in FLDS {
+                for e in exts_of(f) {
+                    for nn in [2usize, 4, 8, 16] {
+                        for &len in &[1024usize, 4096, 32768] {
+                            if quick && (len > 4096 || rng.chance(1, 2)) {
+                                continue;
+                            }
+                            line(format!("fold {} {} {} {} {}", f, e, nn, len, rng.u64() % 1000), emit);
+                        }
+                    }
+                }
             }
-            let ldes: Vec<usize> = if quick { vec![512, 2048, 8192] } else { vec![64, 512, 1024, 2048, 8192, 32768] };
-            for &lde in &ldes {
-                if quick && h.starts_with("rp") && lde > 2048 {
+            for (f, e, h) in [
+                ("f62", "1", "blake3_256"),
+                ("f62", "2", "blake3_256"),
+                ("f62", "1", "rp62_248"),
+                ("f64", "1", "blake3_256"),
+                ("f64", "2", "blake3_192"),
+                ("f64", "3", "sha3_256"),
+                ("f64", "1", "rp64_256"),
+                ("f64", "2", "rpjive64_256"),
+                ("f128", "1", "blake3_256"),
+                ("f128", "2", "sha3_256"),
+                ("f128", "3", "blake3_192"),
+            ] {
+                if f == "f62" && e == "2" && !QuadExtension::<f62::BaseElement>::is_supported() {
                     continue;
                 }
-                let (mut b, mut fo, mut rem) = (2usize, 2usize, 0usize);
-                for _ in 0..100 {
-                    b = *rng.pick(&[2usize, 4, 8]);
-                    fo = *rng.pick(&[2usize, 4, 8, 16]);
-                    rem = *rng.pick(&[0usize, 1, 3, 7, 31]);
-                    if fri_well_formed(lde, b, fo, rem) {
-                        break;
-                    }
+                if f == "f128" && e == "3" && !CubeExtension::<f128::BaseElement>::is_supported() {
+                    continue;
                 }
-                line(format!("fri {} {} {} {} {} {} {} {}", f, e, h, lde, b, fo, rem, rng.u64() % 1000), emit);
+                if f == "f128" && e == "2" && !QuadExtension::<f128::BaseElement>::is_supported() {
+                    continue;
+                }
+                let ldes: Vec<usize> = if quick { vec![512, 2048, 8192] } else { vec![64, 512, 1024, 2048, 8192, 32768] };
+                for &lde in &ldes {
+                    if quick && h.starts_with("rp") && lde > 2048 {
+                        continue;
+                    }
+                    let (mut b, mut fo, mut rem) = (2usize, 2usize, 0usize);
+                    for _ in 0..100 {
+                        b = *rng.pick(&[2usize, 4, 8]);
+                        fo = *rng.pick(&[2usize, 4, 8, 16]);
+                        rem = *rng.pick(&[0usize, 1, 3, 7, 31]);
+                        if fri_well_formed(lde, b, fo, rem) {
+                            break;
+                        }
+                    }
+                    line(format!("fri {} {} {} {} {} {} {} {}", f, e, h, lde, b, fo, rem, rng.u64() % 1000), emit);
+                }
             }
-        }
-        // ---- traces filled through fragments
-        for f in FLDS {
-            for &(w, len, fl) in &[(1usize, 8usize, 2usize), (3, 64, 8), (2, 1024, 64), (5, 4096, 4096), (2, 8192, 2)] {
-                line(format!("fill {} {} {} {} {}", f, w, len, fl, rng.u64() % 1000), emit);
+            // ---- traces filled through fragments
+            for f in FLDS {
+                for &(w, len, fl) in &[(1usize, 8usize, 2usize), (3, 64, 8), (2, 1024, 64), (5, 4096, 4096), (2, 8192, 2)] {
+                    line(format!("fill {} {} {} {} {}", f, w, len, fl, rng.u64() % 1000), emit);
+                }
             }
         }
         // ---- end-to-end proofs: constraint-evaluation domains on both sides of 8192 rows
@@ -1407,7 +1504,7 @@ impl Prop for P {
     }
 
     fn nontrivial(&self, line: &str, out: &str) -> bool {
-        !out.starts_with("bad-op") && !out.starts_with("no-alt")
+        !out.starts_with("bad-op") && !out.starts_with("no-alt") && out != "unavailable"
     }
 
     fn class(&self, line: &str, out: &str) -> String {
